@@ -9,6 +9,7 @@ From Coq Require Import String List Arith Bool ZArith.
 Import ListNotations.
 From NP Require Import Base Values Arrow Abs Kernels Logical ExtArray Codec Steps
   Proofs_Views Proofs_Codec Proofs_Transpose.
+From NP Require Import Proofs_Views2.
 From NP Require Import Props.C03.
 
 Theorem C19_export_same_records : forall p, inv_b p = true -> m_list_struct_rows p = Ok (rows_of (abs p)).
@@ -35,6 +36,15 @@ Theorem C19_import_keeps_rows : forall a, wf_ls_b a = true -> forall c, c = m_tr
   = ls_rows a.
 Proof. exact import_rows. Qed.
 Print Assumptions C19_import_keeps_rows.
+
+(* list-of-structs input of ANY chunking and offsets base, in the column's schema: the constructed column holds
+   exactly the input's records, chunk after chunk (missing input rows stay missing, hidden records under them are
+   not read) *)
+Theorem C19_from_list_struct_rows : forall sch cs, sch <> [] -> nodupb (map fst sch) = true -> cs <> [] ->
+  forallb (fun a => wf_ls_b a && ls_schema_ok sch a) cs = true ->
+  exists q, m_init_from_ls sch cs = Ok q /\ rows_of (abs q) = concat (map ls_rows cs).
+Proof. exact init_from_ls_rows. Qed.
+Print Assumptions C19_from_list_struct_rows.
 
 Example C19_hypotheses_satisfiable :
   inv_b sample_col = true
